@@ -203,6 +203,13 @@ func (p *sparser) typeText() string {
 	for p.isOp("*") || p.isOp("[") || p.isOp("]") {
 		s += p.next().s
 	}
+	if p.isID("map") {
+		p.p++
+		p.expectOp("[")
+		k := p.typeText()
+		p.expectOp("]")
+		return s + "map[" + k + "]" + p.typeText()
+	}
 	t := p.next()
 	if t.k != "id" {
 		panic("type expected in " + p.src)
